@@ -319,6 +319,30 @@ func (r *Runner) Do(op Op) {
 	fi, hasFI := r.pool.(FaultInjectable)
 	armedBefore := hasFI && fi.FaultPending()
 	fired := func() bool { return armedBefore && !fi.FaultPending() }
+	// memory/store agreement is judged as a change: an op is blamed only if memory and store agreed
+	// about this subscriber before it (a lapsed lease's record may linger in the store legitimately)
+	agreedBefore := true
+	if armedBefore && op.Sub != "" {
+		sv, sok := fi.StoreHas(op.Sub)
+		lv, lfound, lsup := r.pool.Lookup(op.Sub)
+		agreedBefore = !lsup || (sok == lfound && (!sok || sv == lv))
+	}
+	// resync: after a failed call on a live lease holder the implementation may or may not have renewed
+	// the local lease before the store write failed; a successful re-ask makes model and implementation agree again
+	resync := func() {
+		if s.Grace <= 0 {
+			return
+		}
+		if _, had := r.model.held(op.Sub); !had {
+			return
+		}
+		if v, err := r.pool.Alloc(op.Sub); err == nil {
+			if mv, _ := r.model.held(op.Sub); mv == v {
+				r.model.owner[op.Sub].lastRenew = r.model.epoch
+			}
+			r.hist = append(r.hist, "resync("+op.Sub+")")
+		}
+	}
 	switch op.K {
 	case "alloc":
 		r.note(op.Sub)
@@ -330,7 +354,7 @@ func (r *Runner) Do(op Op) {
 				// memory-vs-store agreement is reported for C12.
 				sv, sok := fi.StoreHas(op.Sub)
 				lv, lfound, lsup := r.pool.Lookup(op.Sub)
-				if lsup && (sok != lfound || (sok && sv != lv)) {
+				if agreedBefore && lsup && (sok != lfound || (sok && sv != lv)) {
 					r.bad("C12", "memory-store-agreement", "alloc-failed-write", "after failed store write during Alloc(%s): memory has (%v,%v) store has (%v,%v)", op.Sub, lv, lfound, sv, sok)
 				}
 				if lsup {
@@ -342,6 +366,7 @@ func (r *Runner) Do(op Op) {
 						r.model.drop(op.Sub)
 					}
 				}
+				resync()
 				break
 			}
 			if errors.Is(err, ErrExhausted) {
@@ -396,7 +421,7 @@ func (r *Runner) Do(op Op) {
 		if fired() {
 			sv, sok := fi.StoreHas(op.Sub)
 			lv, lfound, lsup := r.pool.Lookup(op.Sub)
-			if lsup && (sok != lfound || (sok && sv != lv)) {
+			if agreedBefore && lsup && (sok != lfound || (sok && sv != lv)) {
 				r.bad("C12", "memory-store-agreement", "release-failed-delete", "after failed store delete during Release(%s) (err=%v): memory has (%v,%v) store has (%v,%v)", op.Sub, err, lv, lfound, sv, sok)
 			}
 			if lsup && !lfound {
@@ -415,9 +440,8 @@ func (r *Runner) Do(op Op) {
 					r.model.owner[op.Sub].lastRenew = r.model.epoch
 				} else if !fired() {
 					r.bad("C05", "renew-within-grace", "renew-failed-for-holder", "Renew(%s) failed (%v) for a live holder", op.Sub, err)
-				} else if _, found, sup := r.pool.Lookup(op.Sub); sup && found {
-					// the local lease was renewed before the store write failed: still a live, renewed holder
-					r.model.owner[op.Sub].lastRenew = r.model.epoch
+				} else {
+					resync()
 				}
 			}
 		}
